@@ -116,13 +116,43 @@ pub fn check(c: &Case) -> CheckResult {
     ok(true, format!("{:?}", c.class).split([' ', '{']).next().unwrap_or("").to_string())
 }
 
+/// The CLI names the sender by *exact* match of the encoded key: look-alike entries (same key text in another letter
+/// case, same prefix, one character changed) are other keys and must not be reported as the sender.
+#[derive(Clone, Debug, Serialize, Deserialize)]
+pub struct Lookup { pub sender: u64, pub present_at: Option<u8>, pub lookalikes: Vec<(u8, u16)>, pub others: u8 }
+pub fn check_lookup(c: &Lookup) -> CheckResult {
+    use crate::keyring::{EncodedPk, Keyring};
+    let spk = kx::ident(c.sender, "lookup-S").pk; let epk = kspec::encode_public_key(&spk);
+    let mut entries: Vec<(String, String)> = Vec::new();
+    for i in 0..(c.others % 4) { entries.push((format!("other{}", i), kspec::encode_public_key(&kx::ident(c.sender ^ (i as u64 + 1), "lookup-O").pk))); }
+    for (k, (kind, pos)) in c.lookalikes.iter().enumerate() {
+        let mut cs: Vec<char> = epk.chars().collect(); let p = crate::core::pick(*pos, cs.len());
+        match kind % 3 {
+            0 => { for ch in cs.iter_mut() { if ch.is_ascii_alphabetic() { *ch = if ch.is_ascii_lowercase() { ch.to_ascii_uppercase() } else { ch.to_ascii_lowercase() }; } } }
+            1 => { let ch = cs[p]; cs[p] = if ch.is_ascii_lowercase() { ch.to_ascii_uppercase() } else if ch.is_ascii_uppercase() { ch.to_ascii_lowercase() } else if ch == '+' { '/' } else { 'A' }; }
+            _ => { cs[p] = if cs[p] == 'A' { 'B' } else { 'A' }; }
+        }
+        let v: String = cs.into_iter().collect();
+        if v != epk && !entries.iter().any(|e| e.1 == v) { entries.push((format!("lookalike{}", k), v)); }
+    }
+    if let Some(at) = c.present_at { let i = (at as usize) % (entries.len() + 1); entries.insert(i, ("the-sender".into(), epk.clone())); }
+    if entries.is_empty() { return ok(false, "empty"); }
+    let text: String = entries.iter().map(|(n, k)| format!("[Key]\nName = {}\nPublicKey = {}\n\n", n, k)).collect();
+    let kr = Keyring::new(&text).map_err(|e| format!("keyring with look-alike keys rejected: {}", e))?;
+    let got = kr.get_name_from_key(&EncodedPk::try_from(epk.as_str()).unwrap());
+    let want = c.present_at.map(|_| "the-sender".to_string());
+    ensure!(got == want, "sender key {} is reported as {:?}; the keyring entry with exactly that key is {:?} (entries: {:?})", epk, got, want, entries.iter().map(|e| e.0.as_str()).collect::<Vec<_>>());
+    ok(!c.lookalikes.is_empty(), format!("lookup/{}{}", if c.present_at.is_some() { "present" } else { "absent" }, if c.lookalikes.is_empty() { "" } else { "+lookalikes" }))
+}
+
 pub fn run(ctx: &Ctx) {
-    set_rule("C05", "key quadruples (S, S', R, R', attacker) derived from a generated seed x a labelled construction class: real encryptor with mismatched sender_public; honest file presented to another key / wrong public half / wrong private half; handshakes forged with the independent specification (claimed static key != key used for ss, es from another ephemeral, low-order static key); each handshake field or the chunk area taken from a second authentic file to the same recipient; each of the 14 spellings of the zero-forcing u-coordinates as recipient of key_encrypt and as ephemeral field; positive controls from the real encryptor. Expected outcome is fixed by construction. Non-trivial = every case outside the positive controls; distinct by hash of the case");
+    set_rule("C05", "key quadruples (S, S', R, R', attacker) derived from a generated seed x a labelled construction class: real encryptor with mismatched sender_public; honest file presented to another key / wrong public half / wrong private half; handshakes forged with the independent specification (claimed static key != key used for ss, es from another ephemeral, low-order static key); each handshake field or the chunk area taken from a second authentic file to the same recipient; each of the 14 spellings of the zero-forcing u-coordinates as recipient of key_encrypt and as ephemeral field; positive controls from the real encryptor; and keyrings with look-alike public keys (other letter case, one character changed) queried with the sender's encoding through the lookup the CLI uses. Expected outcome is fixed by construction. Non-trivial = every case outside the positive controls; distinct by hash of the case");
     ctx.assume("only points whose every clamped multiple is zero are used as low-order inputs; full-order non-canonical encodings belong to C19");
     ctx.pbt("constructed_forgeries", ctx.n(40_000, 600_000), strat, check);
     // every low-order spelling, deterministically
     let n = gen::low_order_points().len();
     let cases: Vec<Case> = (0..n).flat_map(|idx| [Class::LowOrderRecipient { idx }, Class::LowOrderEphemeral { idx }, Class::LowOrderStatic { idx }]).map(|class| Case { class, plain: Plain { len: 20, seed: 5 }, keys: ctx.seed, lens: vec![7], ws: WSched::all() }).collect();
     ctx.sse_vec("low_order_all", "all 14 encodings of small-order points x {recipient, ephemeral field, static field}", cases, check);
+    ctx.pbt("sender_name_lookup_exact", ctx.n(30_000, 500_000), || (any::<u64>(), proptest::option::of(any::<u8>()), proptest::collection::vec((0u8..3, any::<u16>()), 0..4), 0u8..4).prop_map(|(sender, present_at, lookalikes, others)| Lookup { sender, present_at, lookalikes, others }), check_lookup);
     ctx.put("spec_written_honest_files", serde_json::json!({"accepted": SPEC_HONEST_ACCEPTED.load(Ordering::Relaxed), "rejected": SPEC_HONEST_REJECTED.load(Ordering::Relaxed), "note": "informational: shows the specification-built forgeries are rejected for their construction, not for a format mismatch"}));
 }
